@@ -1467,6 +1467,14 @@ class ForAll(BinaryOperator):
             required_vars.update(self.variable._unique_variables_)
         return required_vars
 
+    def _universal_values_were_abandoned_(self) -> None:
+        """
+        The universal values are not iterated to the end when the universal fails early. When they are the solutions
+        of a sub-query, its result caches are then marked as complete while they hold only the values produced so
+        far (the next evaluation of this for_all would see a truncated universal domain), so they are cleared.
+        """
+        self.variable._clear_result_caches_()
+
     def _bind_unbound_condition_variables_(self, bindings: Dict[int, HashedValue],
                                            variables: Optional[List[Variable]] = None) \
             -> Iterable[Dict[int, HashedValue]]:
@@ -1513,6 +1521,7 @@ class ForAll(BinaryOperator):
             # If the condition yields no satisfying bindings for this universal value, the universal fails
             if not current:
                 self.solution_set = []
+                self._universal_values_were_abandoned_()
                 break
 
             if var_val_index == 0:
@@ -1527,6 +1536,7 @@ class ForAll(BinaryOperator):
 
             # Early exit if the intersection is empty
             if not self.solution_set:
+                self._universal_values_were_abandoned_()
                 break
 
         # Yield the remaining bindings (non-universal) merged with the incoming sources
